@@ -393,6 +393,9 @@ class ExprMixin:
 
     def _identity(self, a: V, b: V) -> Optional[bool]:
         for x, y in ((a, b), (b, a)):
+            if isinstance(x, Sym) and x.origin and x.origin[0] == "sentinel":
+                return getattr(y, "uid", None) == x.uid
+        for x, y in ((a, b), (b, a)):
             if is_nil(y):
                 if is_nil(x):
                     return True
